@@ -314,10 +314,12 @@ class CtlGen:
         """x, y = e1, e2 declaring two or three new names of different kinds, or a swap of two readable names of one kind"""
         rng = self.rng
         rd = self.rd(readable)
-        same = [k for k in ("int", "float") if len(rd[k]) >= 2]
+        # never a loop counter / for target: swapping one would change how often the loop runs
+        sw = {k: [n for n in rd[k] if n in known] for k in ("int", "float")}
+        same = [k for k in ("int", "float") if len(sw[k]) >= 2]
         self.shapes["tuple"] = self.shapes.get("tuple", 0) + 1
         if same and rng.random() < 0.4:
-            a, b = rng.sample(rd[rng.choice(same)], 2)
+            a, b = rng.sample(sw[rng.choice(same)], 2)
             return [("tassign", [a, b], [b, a]), ("write", a), ("write", b)]
         kinds = [rng.choice(["int", "float", "bool", "str"]) for _ in range(rng.choice([2, 2, 3]))]
         srcs = [self.g.expr(k, rng.choice([0, 1]), rd) for k in kinds]
